@@ -175,6 +175,7 @@ func runC06(c *Cfg) {
 		it := make([]ItemScript, n)
 		for j := range it {
 			it[j].K = 1 + rg.IntN(2)
+			it[j].EVal = rg.IntN(7) == 0 // a successful value whose type implements error is still a value
 		}
 		cs := &BatchCase{Family: "random", N: n, C: cc, Budget: 1 + i%3, Items: it, Shape: "results", Build: []string{"builder", "option-then-builder"}[(i/2)%2], ExecStyle: []string{"result", "any"}[i%2], Gated: true, Policy: "random", PSeed: rg.Uint64()}
 		if i%16 == 7 {
@@ -316,6 +317,10 @@ func runC06(c *Cfg) {
 				b = "builder"
 			}
 			sc = append(sc, &BatchCase{Family: "shape", N: n, C: cc, Budget: 1, Items: altItems(n), Shape: sh, Build: b, ExecStyle: "result"})
+			for _, pa := range []string{"", "default", "custom"} { // whatever post returns, it is asked once
+				pa := pa
+				sc = append(sc, &BatchCase{Family: "shape-post-action", N: n, C: cc, Budget: 1, Items: altItems(n), Shape: sh, Build: b, ExecStyle: "any", Post: &pa})
+			}
 		}
 	}
 	for _, n := range []int{128, 200, 300, 1000} { // far beyond 64 items, free-running, failing items among them
@@ -477,6 +482,12 @@ func runC07(c *Cfg) {
 		}
 		cs.CtxLike = rg.IntN(4) == 0 // per-attempt timeouts: ordinary failures as far as the batch is concerned
 		cs.TempErrs = !cs.CtxLike && rg.IntN(5) == 0
+		if i%14 == 9 && budget >= 2 && !cs.Gated && cs.Prelude == nil {
+			// the context carries a deadline that is far enough away for every item's whole retry schedule: it changes nothing
+			cs.WaitMs, cs.SleepUs = 2, 0
+			cs.FarDeadlineMs = 40 * (budget + 2) * (n/maxInt(1, cc) + 2)
+			cs.Family = "scripts-under-a-far-deadline"
+		}
 		if i%10 == 3 && budget >= 2 && !cs.Gated {
 			cs.WaitMs, cs.SleepUs = 1+rg.IntN(2), 300 // items sit in retry waits while siblings fail for good: every item still gets its whole budget and its fallback
 			cs.Family = "scripts-with-retry-wait"
@@ -843,6 +854,33 @@ func runC09(c *Cfg) {
 			}
 		}
 	}
+	// one worker (or none) in stop mode with retries and a wait: the item that is retried occupies the worker; nothing behind it runs before it is settled
+	for _, cc := range []int{0, 1} {
+		for _, f := range []int{0, 2} {
+			for _, budget := range []int{2, 3} {
+				n := 6
+				it := make([]ItemScript, n)
+				for j := range it {
+					it[j].K = 1
+				}
+				it[f].K = budget + 1
+				ca = append(ca, &BatchCase{Family: "stop-one-worker-retry-wait", N: n, C: cc, Stop: true, SetMode: true, Budget: budget, Items: it, Shape: "results", Build: []string{"builder", "options"}[f/2], ExecStyle: []string{"result", "any"}[cc], WaitMs: 3})
+			}
+		}
+	}
+	// exec reports failures as error RESULTS with a nil error (for the framework: successes carrying an error state):
+	// a stop-mode batch does not stop for them, and whatever it does, nothing unexecuted looks like a success
+	for _, cc := range []int{0, 1, 3} {
+		for _, f := range []int{0, 3} {
+			n := 7
+			it := make([]ItemScript, n)
+			for j := range it {
+				it[j].K = 1
+			}
+			it[f].K = 2
+			ca = append(ca, &BatchCase{Family: "stop-mode-error-results", N: n, C: cc, Stop: true, SetMode: true, Budget: 1, Items: it, Shape: "results", Build: "builder", ExecStyle: "result", ErrResult: true, Gated: true, Policy: "holdfail"})
+		}
+	}
 	// batches far beyond 64 items in both modes, the first failure early and near the end
 	for _, n := range []int{128, 300} {
 		for _, cc := range []int{0, 1, 3, 8} {
@@ -1027,6 +1065,17 @@ func runC11(c *Cfg) {
 			}
 		}
 	}
+	for _, cc := range []int{0, 1, 2} { // the same node ran before, successfully, with at least as many items: nothing of that run survives into a cancelled one
+		for _, n := range []int{4, 9} {
+			for _, at := range []int{0, 2} {
+				it := make([]ItemScript, n)
+				for j := range it {
+					it[j].K = 1
+				}
+				cx = append(cx, &BatchCase{Family: "in-exec-after-earlier-successful-run", N: n, C: cc, SetMode: true, Stop: at == 2, Budget: 1, Items: it, Shape: "results", Build: "builder", ExecStyle: "any", Gated: true, Policy: "holdfail", Cancel: &CancelSpec{Kind: "cancel", Item: at, Attempt: 1}, Prelude: &Prelude{N: n + 2, Items: make([]ItemScript, n+2)}})
+			}
+		}
+	}
 	for _, cc := range []int{0, 1, 3} { // a fallback that rescues everything is installed: cancellation is not an exec failure to be rescued
 		for _, stop := range []bool{false, true} {
 			for _, budget := range []int{1, 2} {
@@ -1169,4 +1218,11 @@ func dupPayloadRun(kind string, cc int) (n, calls, distinct, lenR int) {
 		}
 	}
 	return n, int(callCtr.Load()), len(seen), len(got)
+}
+
+func maxInt(a, b int) int {
+	if a > b {
+		return a
+	}
+	return b
 }
